@@ -162,8 +162,11 @@ func (checker *Checker) VisitInterfaceDeclaration(declaration *ast.InterfaceDecl
 		if nestedComposite.Kind() == common.CompositeKindEvent {
 			checker.visitCompositeLikeDeclaration(nestedComposite)
 		}
-		if interfaceType.DefaultDestroyEvent != nil {
-			checker.checkDefaultDestroyEvent(interfaceType.DefaultDestroyEvent, nestedComposite, interfaceType, declaration)
+		if interfaceType.DefaultDestroyEvent != nil && nestedComposite.IsResourceDestructionDefaultEvent() {
+			// we enforce elsewhere that each interface can have only one default destroy event.
+			// However, a redeclaration is still checked, so check the declaration against its own type
+			eventType := checker.Elaboration.CompositeDeclarationType(nestedComposite)
+			checker.checkDefaultDestroyEvent(eventType, nestedComposite, interfaceType, declaration)
 		}
 	}
 
